@@ -318,6 +318,10 @@ def find_blocked_reactions(
         reaction_list = solution.fluxes[
             solution.fluxes.abs() < zero_cutoff
         ].index.tolist()
+        # Whether a reaction is blocked does not depend on the objective, which
+        # would otherwise restrict the fluxes to the half space of non-negative
+        # (non-positive when minimizing) objective values.
+        model.objective = Zero
         # Run FVA to find reactions where both the minimal and maximal flux
         # are zero (below the cut off).
         flux_span = flux_variability_analysis(
